@@ -198,9 +198,54 @@ func sweepPlanRace(seed uint64, g int) *Plan {
 	return p
 }
 
+// streakPlan is run g of the second systematic part: a long unbroken streak of
+// detections of ONE sample, then one detection of another sample - again and
+// again, for two dozen other samples. Whatever the library learns from recent
+// history (a "try the last winner first" shortcut, adaptive ordering, a
+// per-format fast path that arms itself after N hits) has armed itself by then,
+// and an input that two detectors accept shows it.
+func streakPlan(seed uint64, tier string, g int) *Plan {
+	n := len(inputs.Corpus())
+	if n == 0 || g >= n {
+		return nil
+	}
+	r := core.NewRand(core.Mix(seed, 0x57eac04, uint64(g)))
+	streak, victims := 20, 24
+	if tier == "thorough" {
+		streak, victims = 70, 60
+	}
+	p := &Plan{Prop: "C04", Limit0: []uint32{3072, 3072, 0}[g%3], MaxSteps: 60000000, Pool: "lifo", Sched: core.SchedSpec{Kind: "random"}}
+	hot := inputs.Input{Fam: "corpus", V: g}
+	var ops []Op
+	for j := 0; j < victims; j++ {
+		for i := 0; i < streak; i++ {
+			op := Op{Kind: "detect", In: &hot, Reuse: true}
+			if i%7 == 3 {
+				op = Op{Kind: "reader", In: &hot}
+			}
+			ops = append(ops, op)
+		}
+		v := inputs.Input{Fam: "corpus", V: r.Intn(n)}
+		if j%4 == 3 {
+			v = inputs.Input{Fam: "corpus", V: (g + 1 + j/4) % n} // a neighbour in the table (often a sibling format)
+		}
+		ops = append(ops, Op{Kind: "detect", In: &v})
+	}
+	p.Tasks = [][]Op{ops}
+	return p
+}
+
 func (c *c04) Plan(seed uint64, tier string, worker, workers, idx int) *Plan {
-	if sp := sweepPlan(seed, worker+idx*workers); sp != nil && idx < 1000000 {
-		return sp
+	if idx < 1000000 {
+		g := worker + idx*workers
+		if sp := sweepPlan(seed, g); sp != nil {
+			return sp
+		}
+		nc := len(inputs.Corpus())
+		sweeps := (nc + sweepChunk - 1) / sweepChunk * len(sweepLimits)
+		if sp := streakPlan(seed, tier, g-sweeps); g >= sweeps && sp != nil {
+			return sp
+		}
 	}
 	if idx >= 10000000 && idx < 11000000 {
 		if sp := sweepPlanRace(seed, worker+(idx-10000000)*workers); sp != nil {
